@@ -29,7 +29,7 @@ func init() {
 				Rule: "case = one tree shape (beta in {0,250,600,900,1000,...}, built by a C01-style history or bulk New) with: Cursor(k) for EVERY key and for absent keys around every key; full forward (Min, Next...) and backward (Max, Prev...) sweeps with HasNext/HasPrev before each move; subtree checks at every node (everything through Left smaller, through Right larger, Cursor.Inorder == subtree keys ascending, early stop, the same cursor scanned again from inside its own scan (re-entrancy; cursors obtained by Cursor(k) and by moves from the root), Min/Max land on subtree extremes, Up after Left/Right returns); " +
 					"random walks (Next/Prev/Left/Right/Up/Min/Max/Clone, 200-2000 moves) of a population of up to 4 cursors with shadow positions, all cursors re-checked after every move; sparse-observation walks (only Valid/Key looked at after each move, the Has* predicates asked occasionally and not re-asked before the next move); cursors looked up, the tree cloned, the original modified, and the clone checked through every cursor operation; nil and invalidated cursors: every method a harmless no-op. " +
 					"distinct = hash of (shape as parent vector, walk seed); non-trivial = the shape has depth >= 4 and the walks included a Next/Prev that climbed >= 2 ancestors",
-				Required:     []string{"shapes", "next_climb_ge2", "prev_climb_ge2", "clone_moves", "invalid_cursor_probes", "absent_key_probes", "shapes_depth_ge10", "walk_moves", "empty_trees", "shapes_with_wide_comparator", "sparse_walk_moves", "clone_after_lookup_checks", "reentrant_scans", "cursors_reached_by_moves", "bulk_new_with_repeated_keys"},
+				Required:     []string{"shapes", "next_climb_ge2", "prev_climb_ge2", "clone_moves", "invalid_cursor_probes", "absent_key_probes", "shapes_depth_ge10", "walk_moves", "empty_trees", "shapes_with_wide_comparator", "sparse_walk_moves", "clone_after_lookup_checks", "reentrant_scans", "cursors_reached_by_moves", "bulk_new_with_repeated_keys", "abandoned_scans"},
 				Assumptions:  []string{"set contents are taken from Tree.Inorder (property C01)", "the structure used as shadow model is itself read through the cursor API, and is accepted only if two independent readings agree and form a binary search tree over exactly the reference set"},
 				CoverPkgs:    []string{"github.com/creachadair/mds/stree"},
 				CoverAnchors: []string{"stree/cursor.go", "stree/stree.go:Cursor", "stree/stree.go:Root", "stree/node.go:pathTo"},
@@ -264,6 +264,33 @@ func (k *c03case) perKey() {
 			if bad || j != hi+1 {
 				k.fail("Cursor(%d).Inorder does not list exactly the subtree keys [%v..%v]", k.ref[i].Key, k.ref[lo], k.ref[hi])
 				return
+			}
+			if i%4 == 2 {
+				// a scan abandoned half-way (its loop body panics, the caller
+				// recovers): the cursor must not have moved and must scan again
+				at := i % (hi - lo + 1)
+				fw.Panics(func() {
+					calls := 0
+					c.Inorder(func(Elem) bool {
+						if calls++; calls > at {
+							panic("scan abandoned by its loop body")
+						}
+						return true
+					})
+				})
+				k.c.Add("abandoned_scans", 1)
+				jj := lo
+				c.Inorder(func(e Elem) bool {
+					if jj > hi || e != k.ref[jj] {
+						return false
+					}
+					jj++
+					return true
+				})
+				if jj != hi+1 || !c.Valid() || c.Key() != k.ref[i] {
+					k.fail("Cursor(%d) after an abandoned Inorder (loop body panicked at call %d): valid=%v, a new scan lists %d of %d subtree keys", k.ref[i].Key, at+1, c.Valid(), jj-lo, hi-lo+1)
+					return
+				}
 			}
 			if hi-lo <= 150 {
 				// re-entrant use: from inside the cursor's own scan, scan the very
